@@ -338,6 +338,12 @@ fn build_ops(p: &[(String, String)], order: &[usize], replaced: bool) -> Vec<(St
         }
         // a validation in between (caches filled by validate() must not survive the replacements)
         ops.push(("#validate".to_string(), String::new()));
+        // the same text with the other line ending (same lines, other offsets)
+        for i in order {
+            let t = &p[*i].1;
+            let twin = if t.contains("\r\n") { t.replace("\r\n", "\n") } else { t.replace('\n', "\r\n") };
+            ops.push((p[*i].0.clone(), twin));
+        }
     }
     for i in order {
         ops.push((p[*i].0.clone(), p[*i].1.clone()));
